@@ -59,6 +59,7 @@ type Options struct {
 	Verbose  bool
 	Cross    bool
 	KeepSMT  string
+	Case     int
 }
 
 func main() {
@@ -106,6 +107,7 @@ func cmdCheck(args []string) int {
 	fs.IntVar(&o.Timeout, "timeout", 0, "per-query timeout (s)")
 	fs.IntVar(&o.Jobs, "jobs", runtime.NumCPU(), "parallel jobs")
 	fs.BoolVar(&o.Verbose, "v", false, "verbose")
+	fs.IntVar(&o.Case, "case", -2, "run only this case index of parameterised harnesses")
 	fs.BoolVar(&o.Cross, "cross", false, "cross-check every solver query with z3-new and cvc5")
 	fs.StringVar(&o.KeepSMT, "keep-smt", "", "directory to keep SMT files of non-trivial queries")
 	noEvidence := fs.Bool("no-evidence", false, "do not write the evidence file")
@@ -172,9 +174,9 @@ type Run struct {
 }
 
 func newRun(ld *Loaded, o *Options) *Run {
-	r := &Run{ld: ld, o: o, pool: NewSolverPool("z3", o.Jobs), totalCases: map[string]int{}}
+	r := &Run{ld: ld, o: o, pool: NewSolverPool(primarySolver(), o.Jobs), totalCases: map[string]int{}}
 	if o.Cross {
-		r.pools = map[string]*SolverPool{"z3new": NewSolverPool("z3new", o.Jobs), "cvc5": NewSolverPool("cvc5", o.Jobs)}
+		r.pools = map[string]*SolverPool{"z3": NewSolverPool("z3", o.Jobs), "cvc5": NewSolverPool("cvc5", o.Jobs)}
 	}
 	r.known = loadKnownFindings()
 	return r
@@ -248,6 +250,10 @@ func (r *Run) selectCases() error {
 			return fmt.Errorf("VN_%s: %v", base, err)
 		}
 		r.totalCases[n] = total
+		if r.o.Case >= 0 {
+			r.cases = append(r.cases, harnessCase{fn: fn, name: n, k: r.o.Case})
+			continue
+		}
 		want := total
 		if r.o.Tier != "thorough" {
 			if qfn := r.lookupHelper(fn, "VQ_"+base); qfn != nil {
@@ -371,10 +377,21 @@ type pendingQuery struct {
 	res  *ObligResult
 	obls []*Oblig
 	q    *Query
+	rest *Query // assumptions outside the cone of influence (solved separately to complete a model)
 }
 
 func (r *Run) solveJob(x *Exec, jr *JobResult) {
 	c := x.c
+	vs := newVarSets(c)
+	mkq := func(n int, cond *Term) (*Query, *Query) {
+		rel, rest := vs.sliceAssumptions(x.assumes[:n], cond)
+		q := c.BuildQuery(append(rel, cond))
+		var rq *Query
+		if len(rest) > 0 {
+			rq = c.BuildQuery(rest)
+		}
+		return q, rq
+	}
 	var pend []*pendingQuery
 	// trivial ones first; batch panic obligations by assumption prefix
 	batches := map[int][]*Oblig{}
@@ -391,9 +408,8 @@ func (r *Run) solveJob(x *Exec, jr *JobResult) {
 			batches[ob.NAssume] = append(batches[ob.NAssume], ob)
 			continue
 		}
-		as := append([]*Term(nil), x.assumes[:ob.NAssume]...)
-		as = append(as, ob.Cond)
-		pend = append(pend, &pendingQuery{obls: []*Oblig{ob}, q: c.BuildQuery(as),
+		q, rq := mkq(ob.NAssume, ob.Cond)
+		pend = append(pend, &pendingQuery{obls: []*Oblig{ob}, q: q, rest: rq,
 			res: &ObligResult{Harness: jr.Harness, Case: jr.Case, ID: ob.ID, Kind: ob.Kind, Pos: ob.Pos}})
 	}
 	sort.Ints(batchKeys)
@@ -403,66 +419,65 @@ func (r *Run) solveJob(x *Exec, jr *JobResult) {
 		for _, ob := range obs {
 			any = c.Or(any, ob.Cond)
 		}
-		as := append([]*Term(nil), x.assumes[:k]...)
-		as = append(as, any)
+		q, rq := mkq(k, any)
 		id := obs[0].ID
 		if len(obs) > 1 {
 			id = fmt.Sprintf("batch(%d run-time checks: %s … %s)", len(obs), obs[0].ID, obs[len(obs)-1].ID)
 		}
-		pend = append(pend, &pendingQuery{obls: obs, q: c.BuildQuery(as),
+		pend = append(pend, &pendingQuery{obls: obs, q: q, rest: rq,
 			res: &ObligResult{Harness: jr.Harness, Case: jr.Case, ID: id, Kind: "panic", Pos: obs[0].Pos}})
 	}
-	// solve concurrently (query texts are already built; Ctx no longer touched except for batch splits)
+	// solve concurrently; a batch that is satisfiable or inconclusive is split (halves, then singles)
 	var wg sync.WaitGroup
-	var splitMu sync.Mutex
-	var splits []*pendingQuery
-	for _, pq := range pend {
-		wg.Add(1)
-		go func(pq *pendingQuery) {
-			defer wg.Done()
-			r.solveOne(pq, jr)
-			if pq.res.Status == "sat" && len(pq.obls) > 1 {
-				splitMu.Lock()
-				splits = append(splits, pq)
-				splitMu.Unlock()
+	round := pend
+	for depth := 0; len(round) > 0 && depth < 12; depth++ {
+		for _, pq := range round {
+			wg.Add(1)
+			go func(pq *pendingQuery) {
+				defer wg.Done()
+				r.solveOne(pq, jr)
+			}(pq)
+		}
+		wg.Wait()
+		var next []*pendingQuery
+		for _, pq := range round {
+			st := pq.res.Status
+			if len(pq.obls) > 1 && st != "unsat" {
+				// split: sat -> singles; unknown/error -> halves
+				var parts [][]*Oblig
+				if st == "sat" {
+					for _, ob := range pq.obls {
+						parts = append(parts, []*Oblig{ob})
+					}
+				} else {
+					h := len(pq.obls) / 2
+					parts = append(parts, pq.obls[:h], pq.obls[h:])
+				}
+				for _, part := range parts {
+					any := c.False
+					for _, ob := range part {
+						any = c.Or(any, ob.Cond)
+					}
+					q, rq := mkq(part[0].NAssume, any)
+					id := part[0].ID
+					if len(part) > 1 {
+						id = fmt.Sprintf("batch(%d run-time checks: %s … %s)", len(part), part[0].ID, part[len(part)-1].ID)
+					}
+					next = append(next, &pendingQuery{obls: part, q: q, rest: rq,
+						res: &ObligResult{Harness: jr.Harness, Case: jr.Case, ID: id, Kind: part[0].Kind, Pos: part[0].Pos}})
+				}
+				continue
 			}
-		}(pq)
-	}
-	wg.Wait()
-	for _, pq := range pend {
-		if pq.res.Status == "sat" && len(pq.obls) > 1 {
-			continue // replaced by individual results below
-		}
-		if len(pq.obls) > 1 {
-			// one result per member so that counts are per run-time check
-			for _, ob := range pq.obls {
-				jr.Obls = append(jr.Obls, &ObligResult{Harness: jr.Harness, Case: jr.Case, ID: ob.ID, Kind: ob.Kind, Pos: ob.Pos,
-					Status: pq.res.Status, Secs: pq.res.Secs / float64(len(pq.obls)), Nodes: pq.res.Nodes})
+			if len(pq.obls) > 1 {
+				for _, ob := range pq.obls {
+					jr.Obls = append(jr.Obls, &ObligResult{Harness: jr.Harness, Case: jr.Case, ID: ob.ID, Kind: ob.Kind, Pos: ob.Pos,
+						Status: st, Secs: pq.res.Secs / float64(len(pq.obls)), Nodes: pq.res.Nodes})
+				}
+				continue
 			}
-			continue
+			jr.Obls = append(jr.Obls, pq.res)
 		}
-		jr.Obls = append(jr.Obls, pq.res)
-	}
-	// split satisfiable batches (sequential build, concurrent solve)
-	var ind []*pendingQuery
-	for _, pq := range splits {
-		for _, ob := range pq.obls {
-			as := append([]*Term(nil), x.assumes[:ob.NAssume]...)
-			as = append(as, ob.Cond)
-			ind = append(ind, &pendingQuery{obls: []*Oblig{ob}, q: c.BuildQuery(as),
-				res: &ObligResult{Harness: jr.Harness, Case: jr.Case, ID: ob.ID, Kind: ob.Kind, Pos: ob.Pos}})
-		}
-	}
-	for _, pq := range ind {
-		wg.Add(1)
-		go func(pq *pendingQuery) {
-			defer wg.Done()
-			r.solveOne(pq, jr)
-		}(pq)
-	}
-	wg.Wait()
-	for _, pq := range ind {
-		jr.Obls = append(jr.Obls, pq.res)
+		round = next
 	}
 }
 
@@ -482,6 +497,19 @@ func (r *Run) solveOne(pq *pendingQuery, jr *JobResult) {
 	pq.res.q = pq.q
 	if res.Status == "sat" {
 		pq.res.Model = res.Model
+		if pq.rest != nil && pq.res.Kind != "reach" {
+			rr := r.pool.Solve(pq.rest, r.o.Timeout, true)
+			if rr.Status == "sat" {
+				for k, v := range rr.Model {
+					if _, dup := pq.res.Model[k]; !dup {
+						pq.res.Model[k] = v
+					}
+				}
+			} else {
+				pq.res.Status = "unknown"
+				pq.res.Verdict = "counterexample found but the assumptions outside its cone of influence could not be satisfied (" + rr.Status + ")"
+			}
+		}
 	}
 	if res.Status == "error" || res.Status == "unknown" {
 		pq.res.Verdict = strings.TrimSpace(firstLine(res.Raw))
@@ -537,6 +565,9 @@ func (r *Run) verdict() int {
 			}
 		}
 	}
+	reachOK := map[string]bool{}
+	reachBad := map[string]string{}
+	defer func() {}()
 	for _, jr := range r.results {
 		if jr.Err != "" {
 			msg := fmt.Sprintf("ENCODER-ERROR harness=%s case=%d: %s", jr.Harness, jr.Case, jr.Err)
@@ -548,15 +579,16 @@ func (r *Run) verdict() int {
 		for _, ob := range jr.Obls {
 			switch ob.Kind {
 			case "reach":
+				key := jr.Harness + "|" + ob.ID
 				switch ob.Status {
 				case "sat":
 					ob.Verdict = "reachable (vacuity witness ok)"
+					reachOK[key] = true
 				case "unsat", "discharged-by-simplification":
-					msg := fmt.Sprintf("VACUOUS harness=%s case=%d witness=%s is unreachable", jr.Harness, jr.Case, ob.ID)
-					fmt.Println(msg)
-					r.problems = append(r.problems, msg)
-					ob.Verdict = "vacuous"
-					bump(2)
+					ob.Verdict = "unreachable in this case"
+					if !reachOK[key] {
+						reachBad[key] = fmt.Sprintf("VACUOUS harness=%s witness=%s is unreachable in every explored case", jr.Harness, ob.ID)
+					}
 				default:
 					msg := fmt.Sprintf("INCONCLUSIVE harness=%s case=%d witness=%s status=%s %s", jr.Harness, jr.Case, ob.ID, ob.Status, ob.Verdict)
 					fmt.Println(msg)
@@ -589,6 +621,13 @@ func (r *Run) verdict() int {
 					bump(2)
 				}
 			}
+		}
+	}
+	for key, msg := range reachBad {
+		if !reachOK[key] {
+			fmt.Println(msg)
+			r.problems = append(r.problems, msg)
+			bump(2)
 		}
 	}
 	return code
@@ -764,4 +803,11 @@ func (r *Run) summary(code int, wall float64) {
 	}
 	fmt.Printf("gosmx: property=%s tier=%s cases=%d obligations=%d (folded=%d unsat=%d sat=%d inconclusive=%d) known-findings=%d violations=%d problems=%d wall=%.1fs exit=%d\n",
 		r.o.Prop, r.o.Tier, len(r.results), total, triv, unsat, sat, other, len(r.findings), len(r.violations), len(r.problems), wall, code)
+}
+
+func primarySolver() string {
+	if v := os.Getenv("VX_SOLVER"); v != "" {
+		return v
+	}
+	return "z3new"
 }
